@@ -575,6 +575,12 @@ def execute(case: dict) -> dict:
         want2 = sum(np.vdot(np.asarray(l), np.asarray(l)) for l in jax.tree.leaves(x))
         if exc2 is not None or not np.allclose(np.asarray(val2), want2, rtol=1e-5, atol=1e-5):
             fails.append(('dot_same_object', f'dot(x, x) = {val2!r} {exc2}, sum of leaf inner products = {want2!r}'))
+        # all-integer leaves: the sum of integer inner products is an integer, exactly (also beyond 2^24)
+        xi = jax.tree.map(lambda l: jnp.asarray(np.asarray(l).real.astype(np.int32) + 4097), x)
+        val3, exc3 = _call(lambda: ftree.dot(xi, xi))
+        want3 = sum(int(np.vdot(np.asarray(l, dtype=np.int64), np.asarray(l, dtype=np.int64))) for l in jax.tree.leaves(xi))
+        if exc3 is not None or not np.issubdtype(np.asarray(val3).dtype, np.integer) or int(val3) != want3:
+            fails.append(('dot_integer_leaves', f'dot of integer leaves = {val3!r} {exc3}, exact sum = {want3}'))
     else:
         raise HarnessBug(f'unknown category {cat}')
 
